@@ -1,5 +1,6 @@
 import IsoVerif.Driver.Core
 import IsoVerif.Model.Samples
+import IsoVerif.Model.SampleFolders
 
 namespace IsoVerif.Driver.C10
 open Lean IsoVerif.Driver IsoVerif.Gen IsoVerif.Model.C10
@@ -122,7 +123,44 @@ def ofParsed (r : Option (List ParsedSample)) : Json :=
       ("readable", ofList (fun p => Json.arr #[ofStr p.1, ofStr p.2]) s.readable),
       ("illumina", ofOpt ofStrList s.illumina)]) l
 
+def jYamlName (j : Json) : Except String YamlName := do
+  let k ← fld j "kind" jStr
+  match k with
+  | "absent" => pure .absent
+  | "null" => pure .null
+  | "str" => pure (.str (← fld j "value" jStr))
+  | "int" => pure (.int (← fld j "value" jInt))
+  | "bool" => pure (.bool (← fld j "value" jBool))
+  | "other" => pure (.other (← fld j "value" jStr))
+  | _ => throw ("unknown kind of name: " ++ k)
+
+def jRawEntry (j : Json) : Except String RawEntry := do
+  pure ⟨← fld j "name" jYamlName, ← fld j "files" (jOpt (jList jInFile)), ← fld j "labels" (jOpt (jList jStr)),
+        ← fld j "illumina" (jOpt (jList jStr))⟩
+
+/-- experiments with their output folder and one output file (`SampleData.out_dir`, `.out_assigned_tsv`), a refusal, or a traceback -/
+def ofDescribed (out : String) (d : Described (List ParsedSample)) : Json :=
+  match d with
+  | .exit => jErr "exit"
+  | .crash => Json.mkObj [("traceback", ofStr "TypeError")]
+  | .ok l => ofList (fun s => Json.mkObj [("name", ofStr s.name), ("libs", ofList ofStrList s.libs),
+      ("readable", ofList (fun p => Json.arr #[ofStr p.1, ofStr p.2]) s.readable),
+      ("illumina", ofOpt ofStrList s.illumina),
+      ("out_dir", ofStr (String.ofList (outDirL out.toList s.name.toList))),
+      ("assigned_tsv", ofStr (String.ofList (outFileL out.toList s.name.toList ".read_assignments.tsv".toList)))]) l
+
 def ops : List (String × Handler) := [
+  ("describe_yaml", fun j => do
+      pure (ofDescribed (← fld j "output" jStr) (describeYaml (← fld j "prefix" jStr) (← fld j "entries" (jList jRawEntry))))),
+  ("describe_list", fun j => do
+      pure (ofDescribed (← fld j "output" jStr)
+        (describeList (← fld j "bam" jBool) (← fld j "prefix" jStr) (← fld j "lines" (jList jListLine))))),
+  ("name_policy_of_source", fun _ => do
+      let p := namePolicyOfSource
+      pure (Json.mkObj [("yaml_name_through_str", ofBool p.yamlStr), ("yaml_blank_name_positional", ofBool p.yamlBlank),
+                        ("folder_check", ofBool p.folderCheck), ("one_bam_per_line", ofBool p.oneBamPerLine)])),
+  ("resolve_path", fun j => do
+      pure (ofList (fun c => ofStr (String.ofList c)) (resolveL (← fld j "path" jStr).toList))),
   ("parse_yaml", fun j => do
       pure (ofParsed (parseYaml (← fld j "prefix" jStr) (← fld j "entries" (jList jYamlEntry))))),
   ("parse_list", fun j => do
